@@ -4,3 +4,4 @@ import Properties.C16
 import Properties.C04
 import Properties.C20
 import Properties.C13
+import Properties.C08
